@@ -18,7 +18,7 @@ RULE = ('class {MPS,MPO} x mode {left,right} x L x d x interior bond profile x e
         'for the largest shapes) x boundary charges x value kind {complex,real,int,ones,neg,rankdef,zero,fortran(column-major storage)}; non-trivial = non-zero state '
         'with some bond carrying >=2 distinct charges or a bond dimension that changes')
 BUDGET = {'quick': 400, 'thorough': 3600}
-KINDS = ['complex', 'real', 'int', 'ones', 'neg', 'rankdef', 'zero', 'fortran']
+KINDS = ['complex', 'real', 'int', 'ones', 'neg', 'rankdef', 'zero', 'fortran', 'tiny', 'large']
 
 
 def _cases(cls, Ls, ds, Ds, alph, max_dev_for):
@@ -68,6 +68,9 @@ def judge_orthonormalize(ctx, obj, cls, mode, prefix=''):
         dloc = d * d
     old_dims = [len(q) for q in qD]
     nrm0 = float(np.linalg.norm(v0))
+    # all comparisons are relative to the size of the object: rounding level is set by the product of the tensor norms
+    tscale = float(np.prod([np.linalg.norm(a) for a in obj.A]))
+    eps = 1e-10 * nrm0 + 1e-12 * tscale
     nrm = obj.orthonormalize(mode=mode)
     ctx.calls += 1
     ctx.cls('zero_state' if nrm0 == 0 else 'nonzero_state')
@@ -83,7 +86,7 @@ def judge_orthonormalize(ctx, obj, cls, mode, prefix=''):
         return
     nrm = float(nrm)
     ctx.check(nrm >= 0, prefix + 'factor_non_negative', nrm)
-    ctx.check(abs(nrm - nrm0) <= 1e-10 * (1 + nrm0), prefix + 'factor_equals_norm', f'{nrm} vs {nrm0}')
+    ctx.check(abs(nrm - nrm0) <= eps, prefix + 'factor_equals_norm', f'{nrm} vs {nrm0}')
     # shapes chain up
     for i in range(L - 1):
         if A[i].shape[-1] != A[i + 1].shape[-2]:
@@ -91,8 +94,12 @@ def judge_orthonormalize(ctx, obj, cls, mode, prefix=''):
             return
     v1 = dense.mps_to_vector(A) if cls == 'MPS' else dense.mpo_to_matrix(A)
     ctx.obs(v1, np.float64(nrm))
-    ctx.close(nrm * v1, v0, prefix + 'factor_times_new_equals_original', scale=nrm0)
-    if nrm0 > 0:
+    if np.all(np.isfinite(v1)):
+        err = float(np.max(np.abs(nrm * v1 - v0)))
+        ctx.check(err <= eps, prefix + 'factor_times_new_equals_original', f'err={err:.3e} norm={nrm0:.3e}')
+    else:
+        ctx.fail(prefix + 'factor_times_new_equals_original', 'non-finite value')
+    if nrm0 > 1e-12 * tscale:
         ctx.check(abs(np.linalg.norm(v1) - 1) <= 1e-10, prefix + 'unit_norm_after', np.linalg.norm(v1))
     # isometries
     for i, a in enumerate(A):
@@ -140,7 +147,7 @@ def spaces(tier, seed):
             return None if (d + sum(prof)) <= 5 else 3
         def md_mpo(L, d, prof):
             return None if (d + sum(prof)) <= 4 else 2
-        SK = ['complex', 'int', 'neg', 'rankdef', 'fortran']
+        SK = ['complex', 'int', 'neg', 'rankdef', 'fortran', 'tiny']
         return [
             Space('mps_sectors', core.chunked(_sector_cases('MPS', [2, 3], [[0, 1], [1, -1], [0, 1, 2]], [1, 2, 3], SK), 400),
                   run_case=run_case, sig=sig,
@@ -164,7 +171,7 @@ def spaces(tier, seed):
         return None if (d + sum(prof)) <= 7 else 4
     def md_t2(L, d, prof):
         return None if (d + sum(prof)) <= 6 else 3
-    SK = ['complex', 'real', 'int', 'neg', 'rankdef']
+    SK = ['complex', 'real', 'int', 'neg', 'rankdef', 'tiny']
     return [
         Space('mps_sectors', core.chunked(_sector_cases('MPS', [2, 3, 4], [[0, 1], [1, -1], [0, 1, 2]], [1, 2, 3], SK, extra=()), 400),
               run_case=run_case, sig=sig,
